@@ -280,6 +280,18 @@ def r11_3(run):
                     ok = got == FUNC_ALIASES.get(target, target)
                     run.ob("R11.3", loc(fi, s.call), fi.short, f"np.{fi.name} override -> {s.op_cls.name}.numpy_func", ok,
                            f"kernel {got} is the overridden function" if ok else f"np.{fi.name}(tensor) computes {got}")
+                elif s.op_cls is not None and target is not None:
+                    # ops that call their kernel directly: the overridden NumPy function is among the NumPy functions the forward pass calls
+                    m2 = s.op_cls.lookup_method("__call__")
+                    called = set()
+                    for c2 in own_nodes(m2.node):
+                        if isinstance(c2, ast.Call):
+                            e2 = fx.ext_name_of(m2, c2.func)
+                            if e2 and e2.startswith("numpy."):
+                                called.add(FUNC_ALIASES.get(e2, e2))
+                    ok = FUNC_ALIASES.get(target, target) in called
+                    run.ob("R11.3", loc(fi, s.call), fi.short, f"{target} override -> {s.op_cls.name} calls that NumPy function", ok,
+                           f"forward pass calls {sorted(called)}" if ok else f"the op registered for {target} computes with {sorted(called)} instead")
     run.count("ufunc registrations", n_u)
     run.count("numpy function overrides", n_f)
     # registration statement itself: keyed by getattr(np, <decorated name>)
